@@ -32,6 +32,10 @@ class Executor(Exec):
         top-level parameter of the same name)."""
         c = self.cur_contract
         short = name.split(".")[-1]
+        lits = []
+        for a in args:
+            if isinstance(a, SPrim) and a.ty == "str" and a.t.decl().name().startswith("str:"):
+                lits.append(repr(a.t.decl().name()[4:]))
         g0 = dict(st.ghost)
         ent = getattr(self, "entry_env", None) or {}
         for pname, pv in ent.items():
@@ -43,6 +47,7 @@ class Executor(Exec):
         st = st.but(ghost=g0)
         rty = (getattr(c, "opaque_results", None) or {}).get(short, "opaque") if c else "opaque"
         res, st = fresh_value(st, S.parse_type(rty), "op." + short)
+        if isinstance(res, SOpaqueObj): res = SOpaqueObj(f"{name}({','.join(lits)})")
         g = dict(st.ghost)
         cnt = g.get("count:" + short, z3.IntVal(0))
         g["count:" + short] = cnt + 1
@@ -168,6 +173,8 @@ class Executor(Exec):
                 for f in facts: st = st.fact(f)
                 return k(I(c), st)
             return k(I(ops.as_seq(st, v).n), st)
+        if name in ("tuple", "list", "set", "frozenset", "dict", "sorted") and args and isinstance(args[0], SOpaqueObj):
+            return k(SOpaqueObj(name + "()"), st)
         if name in ("tuple", "list"):
             if not args:
                 sq = EmptySeq()
@@ -384,6 +391,8 @@ class Executor(Exec):
     def list_method(self, recv, c: ListCell, name, args, st, k):
         if name == "append":
             v = args[0]
+            if isinstance(v, SOpaqueObj) and c.elem == "PyVal":
+                v = SPrim("PyVal", S.fresh("pv", S.PyVal))
             if v.ty != c.elem: raise Unsupported("list.append of another element type")
             return k(SNone(), st.put(recv.ref, ListCell(c.elem, c.n + 1, z3.Store(c.arr, c.n, term_of(v)))))
         if name == "copy":
@@ -429,7 +438,21 @@ class Executor(Exec):
         m = getattr(self, "ex_" + type(s).__name__, None)
         if m is None:
             raise Unsupported(f"statement {type(s).__name__}")
+        checks = getattr(self.cur_contract, "checks", None) if self.cur_contract else None
+        if checks and not isinstance(s, (ast.For, ast.While, ast.If, ast.Try, ast.FunctionDef)):
+            txt = ast.unparse(s)
+            if txt in checks:
+                def after(st2, _txt=txt):
+                    self.site_check(_txt, checks[_txt], st2)
+                    return self.ex(stmts[1:], st2, k)
+                self.sites_seen = getattr(self, "sites_seen", set()) | {txt}
+                return m(s, st, after)
         return m(s, st, lambda st2: self.ex(stmts[1:], st2, k))
+
+    def site_check(self, txt, expr, st):
+        from vf.pyvc.spec import PureEval
+        goal = PureEval(self, st, dict(st.env), old_st=getattr(self, "entry_st", None)).truth(expr)
+        self.vc(f"{self.top_name}.after[{txt}]", st, goal, "assertion at a program point")
 
     def ex_Pass(self, s, st, k): return k(st)
     def ex_Global(self, s, st, k): return k(st)
@@ -492,6 +515,8 @@ class Executor(Exec):
 
     def materialise(self, v, st, hint=None):
         """Turn placeholder values ({} / set() / [] of unknown type) into heap cells once the type is known."""
+        if isinstance(v, SClosure) and v.kind in ("emptydict", "emptyset", "emptylist") and hint == "opaque":
+            return SOpaqueObj("container"), st
         if isinstance(v, SClosure) and v.kind in ("emptydict", "emptyset") and hint:
             ty = S.parse_type(hint)
             r = new_ref()
@@ -552,6 +577,7 @@ class Executor(Exec):
                         else:
                             vt = term_of(self.coerce(v, c.vty, st2))
                         return k(st2.put(o.ref, DictCell(c.kty, c.vty, z3.Store(c.dom, kt, True), z3.Store(c.val, kt, vt))))
+                if isinstance(o, SOpaqueObj): return k(st2)
                 raise Unsupported(f"subscript assignment on {o}")
             return self.evs([t.value, t.slice], st, got)
         if isinstance(t, (ast.Tuple, ast.List)) and isinstance(v, SOpaqueObj):
@@ -608,6 +634,26 @@ class Executor(Exec):
                                    lambda s3: self.raise_("KeyError", s3))
             raise Unsupported("del on a non-dict")
         return self.evs([t.value, t.slice], st, got)
+
+    def ex_Try(self, s, st, k):
+        if s.finalbody or s.orelse: raise Unsupported("try/finally, try/else")
+        fr = st.fr
+        def on_raise(exc, st2):
+            for h in s.handlers:
+                names = []
+                if h.type is None: names = None
+                elif isinstance(h.type, ast.Name): names = [h.type.id]
+                elif isinstance(h.type, ast.Tuple): names = [x.id for x in h.type.elts]
+                if names is None or exc in names or "Exception" in names:
+                    st3 = st2.but(fr=fr)
+                    if h.name: st3 = st3.bind(h.name, SOpaqueObj("exception"))
+                    return self.ex(h.body, st3, k)
+            return fr.on_raise(exc, st2.but(fr=fr))
+        tfr = Frame(fr.on_return, on_raise, fr.parent, fr.name)
+        for a in ("fn", "qual", "entry_st"):
+            setattr(tfr, a, getattr(fr, a, None))
+        tfr.loops = fr.loops
+        return self.ex(s.body, st.but(fr=tfr), lambda st2: k(st2.but(fr=fr)))
 
     def ex_Break(self, s, st, k): return st.fr.loops[-1][0](st)
     def ex_Continue(self, s, st, k): return st.fr.loops[-1][1](st)
